@@ -109,7 +109,15 @@ def main(argv=()):
         parse_result = parser.parse_module(tokens)
         if parse_result.error:
             _print_errors(
-                [error.make_error_from_parse_error(file_name, parse_result.error)],
+                [
+                    error.make_error_from_parse_error(
+                        file_name,
+                        parse_result.error,
+                        end_of_input_location=(
+                            tokens[-1].source_location if tokens else None
+                        ),
+                    )
+                ],
                 {file_name: source_code},
                 flags,
             )
